@@ -139,6 +139,17 @@ reg("C08", "exploration",
     "property-based testing (Hypothesis) with reference model + permutation (metamorphic) relation",
     "DESIGN.md section 4 C08")
 
+reg("C01", "exploration",
+    "Hypothesis-generated well-separated annotations and reads derived from isoforms by explicit recipes (the "
+    "generator carries the ground truth: source isoform, truncations, junction shifts, indels, tails); W reads must "
+    "be consistent, never reported with a surely incompatible isoform, include their source isoform when full "
+    "length and be unique to it when nothing else is compatible; F reads (wide-margin structural changes verified by "
+    "the reference model before the run) must never be consistent. All four matching strategies and three data types.",
+    "Three-valued structural oracle (vlib/refmodel/compat.py) with wide margins; grey cases are counted, never judged; "
+    "one known finding (terminal_exon_misalignment without size bound).",
+    "property-based testing (Hypothesis) with generator-carried ground truth and three-valued structural oracle",
+    "DESIGN.md section 4 C01")
+
 NOT_YET = "check not built yet in this session (see DESIGN.md section 6a build order)"
 
 
